@@ -167,20 +167,26 @@ func genC09(t *rapid.T) c09Case {
 
 var jsonLineRe = regexp.MustCompile(`line \d+`)
 
+// maskedKey compares a step including its error text; for the json format the digits after "line "
+// are masked: that reader reports the line of pre-fetched data (documented as a rough number in
+// idr/jsonreader.go), which legitimately moves with the delivery schedule.
+func maskedKey(format string) func(run.Step) string {
+	return func(s run.Step) string {
+		k := s.KeyWithErr()
+		if format == "json" {
+			k = jsonLineRe.ReplaceAllString(k, "line N")
+		}
+		return k
+	}
+}
+
 func checkC09(c c09Case) obs.Result {
 	sch, err := run.NewSchema(c.Shape.Schema())
 	if err != nil {
 		return obs.Violationf("generated schema rejected: %v", err)
 	}
 	in := c.input()
-	key := func(s run.Step) string {
-		k := s.KeyWithErr()
-		if c.Shape.Format == "json" {
-			// the json reader reports the line of pre-fetched data (documented as rough); it moves with the chunking
-			k = jsonLineRe.ReplaceAllString(k, "line N")
-		}
-		return k
-	}
+	key := maskedKey(c.Shape.Format)
 	ref, err := run.Transcript(sch, bytes.NewReader(in), run.Opts{InputLen: len(in)})
 	if err != nil {
 		return obs.Result{Excluded: "reference run has no terminal result (C03's business)"}
